@@ -126,19 +126,32 @@ def _gen_body(ctx, p, g):
     if g in ("fast_random_hypergraph", "random_hypergraph"):
         n, ps = p["n"], p["ps"]
         f = getattr(xgi, g)
-        H = _run(ctx, lambda: f(n, list(ps)))
+        if "order" in p:
+            # the order= keyword: an int with a float probability, or a list in any sequence
+            od = p["order"]
+            if isinstance(od, int):
+                H = _run(ctx, lambda: f(n, float(ps[0]), order=od))
+                orders = [od]
+            else:
+                wrap = np.array if p.get("as_array") else list
+                H = _run(ctx, lambda: f(n, wrap(ps), order=wrap(od)))
+                orders = list(od)
+            ctx.info["args"] = {"order": od, "ps": ps}
+        else:
+            H = _run(ctx, lambda: f(n, list(ps)))
+            orders = [d + 1 for d in range(len(ps))]
         basic(ctx, H, n, g)
         es = edges_of(H)
-        allowed = {d + 2 for d in range(len(ps))}
+        allowed = {o + 1 for o in orders}
         ctx.require(all(len(e) in allowed for e in es), f"{g}: an edge has a size that is not allowed")
         ctx.require(not has_repeat(es), f"{g}: repeated edge")
-        for d, pr in enumerate(ps):
-            k = len([e for e in es if len(e) == d + 2])
+        for o, pr in zip(orders, ps):
+            k = len([e for e in es if len(e) == o + 1])
             if pr == 0:
                 ctx.require(k == 0, f"{g}: p=0 produced edges of that order")
             if pr == 1:
-                ctx.require(k == comb(n, d + 2, exact=True), f"{g}: p=1 did not produce all edges of that order")
-        if sum(1 for pr in ps if 0 < pr < 1) == 1 and all(pr in (0, 0.5) for pr in ps):
+                ctx.require(k == comb(n, o + 1, exact=True), f"{g}: p=1 did not produce all edges of that order")
+        if "order" not in p and sum(1 for pr in ps if 0 < pr < 1) == 1 and all(pr in (0, 0.5) for pr in ps):
             ctx.info["outcome"] = "config:" + "|".join(sorted("-".join(map(str, sorted(e))) for e in es))
     elif g == "uniform_erdos_renyi_hypergraph":
         n, m, pr = p["n"], p["m"], p["p"]
@@ -478,6 +491,16 @@ def spec(tier, seed):
         for ps in itertools.product(pvals, repeat=maxd):
             if _cands(n, ps) <= 12:
                 units.append(("C16.gen", {"gen": "random_hypergraph", "n": n, "ps": list(ps)}))
+    # the order= keyword: lists that are not increasing, gaps, a single int
+    for g in ("random_hypergraph", "fast_random_hypergraph"):
+        for od in ([2, 1], [1, 3], [3, 1], [2]):
+            for ps in itertools.product(pvals, repeat=len(od)):
+                if sum(comb(4, o + 1, exact=True) for o, pr in zip(od, ps) if 0 < pr < 1) <= 10:
+                    units.append(("C16.gen", {"gen": g, "n": 4, "ps": list(ps), "order": od}))
+        units.append(("C16.gen", {"gen": g, "n": 4, "ps": [0.0, 1.0], "order": [2, 1], "as_array": True}))
+        for od in (1, 2, 3):
+            for pr in pvals:
+                units.append(("C16.gen", {"gen": g, "n": 4, "ps": [pr], "order": od}))
     for n, m in ((3, 2), (4, 2), (5, 2), (4, 3)) if q else ((3, 2), (4, 2), (5, 2), (4, 3), (5, 3), (3, 3), (5, 4)):
         for pr in pvals:
             units.append(("C16.gen", {"gen": "uniform_erdos_renyi_hypergraph", "n": n, "m": m, "p": pr, "p_type": "prob", "multiedges": False}))
